@@ -891,11 +891,11 @@ func (client *client) subscribeHandler(sub *packets.Subscribe) *codes.Error {
 	for k, v := range sub.Topics {
 		sub := subReq.Subscriptions[v.Name].Sub
 		subErr := converError(subReq.Subscriptions[v.Name].Error)
-		var isShared bool
+		// a shared subscription made by a v3 client is shared all the same (no retained messages for it)
+		isShared := sub.ShareName != ""
 		code := sub.QoS
 		if client.version == packets.Version5 {
-			if sub.ShareName != "" {
-				isShared = true
+			if isShared {
 				if !client.opts.SharedSubAvailable {
 					code = codes.SharedSubNotSupported
 				}
